@@ -455,8 +455,14 @@ def rearm_rule(rep, A):
 
     def only_if_planned():
         pbr = cond_branch(f, planned)
-        return pbr is not None and all(f.dominates_block(pbr[1], c.block) and not f.dominates_block(pbr[2], c.block)
-                                       for c in (unplan, shift, plan))
+        if pbr is None or pbr[1] is pbr[2]:
+            return False
+        # the block entered on the true edge dominates the three calls and is entered by that edge only (then every execution
+        # of them follows a true outcome in the same iteration); the false edge may be a `continue`, i.e. lead back to the
+        # loop header, which dominates everything - so it is not required that the false target does not dominate them
+        only_true_edge = len(pbr[1].preds) == 1 and pbr[1].preds[0] is pbr[0].block
+        return all(f.dominates_block(pbr[1], c.block) and (only_true_edge or not f.dominates_block(pbr[2], c.block))
+                   for c in (unplan, shift, plan))
     clause('re-arm-only-if-still-planned', ['shift', 'is_planned', 'unplan', 'plan'], only_if_planned,
            'unplan/shift/plan must run only on the branch on which the callback left the timer planned '
            '(a timer unplanned by its callback must not come back)')
@@ -518,6 +524,69 @@ def flows_to_ret(f, inst):
     return False
 
 
+def cmp_polarity(f, c):
+    """True: the comparison being true makes the function return non-zero (it IS the due test); False: it makes the function
+    return zero (the due test is its negation); None: not recognised.  Value uses (zext / and / select / phi into the return)
+    count as positive; a branch is followed to the constants returned on its two edges."""
+    def const_ret(block, frm, depth=0):
+        # the constant returned when control enters `block` from `frm` and no further decision is taken
+        if depth > 6:
+            return None
+        t = block.term
+        if t.op == 'ret' and t.ops:
+            v = t.ops[0]
+            for _ in range(4):
+                if v.k == 'ci':
+                    return v.ival
+                i = f.inst_of(v)
+                if i is None:
+                    return None
+                if i.op in ('zext', 'sext', 'trunc'):
+                    v = i.ops[0]
+                elif i.op == 'phi' and i.block is block:
+                    nv = [x for (bb, x) in i.incoming if bb == frm.name]
+                    if len(nv) != 1:
+                        return None
+                    v = nv[0]
+                else:
+                    return None
+            return None
+        if t.op == 'br' and 'f' not in t.d:
+            return const_ret(f.bmap[t.d['t']], block, depth + 1)
+        return None
+    v = ('i', c.id)
+    neg = False
+    for _ in range(6):
+        us = [u for u in f.uses.get(v, []) if u.op != 'dbg']
+        brs = [u for u in us if u.op == 'br' and 'f' in u.d and u.ops[0].key() == v]
+        if brs:
+            br = brs[0]
+            rt = const_ret(f.bmap[br.d['t']], br.block)
+            rf = const_ret(f.bmap[br.d['f']], br.block)
+            if rt is None or rf is None or bool(rt) == bool(rf):
+                return None
+            return bool(rt) != neg
+        xs = [u for u in us if u.op == 'xor' and any(o.k == 'ci' and o.ival != 0 for o in u.ops)]
+        if len(xs) == 1 and len(us) == 1:
+            neg = not neg
+            v = ('i', xs[0].id)
+            continue
+        sels = [u for u in us if u.op == 'select' and u.ops[0].key() == v]
+        if sels and len(us) == len(sels):
+            pols = set()
+            for u in sels:
+                a, b = u.ops[1], u.ops[2]
+                if a.k == 'ci' and b.k == 'ci' and bool(a.ival) != bool(b.ival):
+                    pols.add(bool(a.ival))
+                else:
+                    return None
+            return (pols.pop() != neg) if len(pols) == 1 else None
+        if us and all(u.op in ('zext', 'and', 'select', 'phi', 'ret', 'freeze') for u in us):
+            return not neg
+        return None
+    return None
+
+
 def dueform_rule(rep, name, f, now_arg, off_start, off_interval, signed, mod):
     R = 'R-DUEFORM'
     where = '%s:%d' % (f.file, f.line)
@@ -539,9 +608,16 @@ def dueform_rule(rep, name, f, now_arg, off_start, off_interval, signed, mod):
     rep.inst(R, name, 'due-test:right-side-is-interval', ok, c.where(),
              None if ok else 'the elapsed time must be compared with the interval field')
     want = 'sge' if signed else 'uge'
-    rep.inst(R, name, 'due-test:predicate-is-%s' % want, c.pred == want, c.where(),
-             None if c.pred == want else 'predicate is %s: a timer is due from the instant elapsed == interval on, and the '
-             'comparison must have the signedness of the time type' % c.pred)
+    pred = c.pred
+    pol = cmp_polarity(f, c)
+    if pol is None:
+        raise AnalysisBroken('%s: how the outcome of the elapsed-time comparison determines the result is not recognised' % name)
+    if pol is False:
+        # `if (elapsed < interval) return 0; return 1;`: the comparison selects the NOT-due outcome - the due test is its negation
+        pred = {'slt': 'sge', 'sge': 'slt', 'sgt': 'sle', 'sle': 'sgt', 'ult': 'uge', 'uge': 'ult', 'ugt': 'ule', 'ule': 'ugt'}[pred]
+    rep.inst(R, name, 'due-test:predicate-is-%s' % want, pred == want, c.where(),
+             None if pred == want else 'predicate is %s: a timer is due from the instant elapsed == interval on, and the '
+             'comparison must have the signedness of the time type' % pred)
     adds = [i for i in f.all_insts() if i.op == 'add'] + \
         [i for i in f.calls() if callee_base(mod, i) in ('finish', 'stimer_finish')]
     rep.inst(R, name, 'due-test:no-deadline-sum', not adds, adds[0].where() if adds else where,
